@@ -300,10 +300,44 @@ impl Check for C03 {
         }
     }
     fn generate(&self, r: &mut Rng, _tier: Tier, st: &mut Stats) -> Trace {
-        let n = 1 + r.below(12);
+        let mut n = 1 + r.below(12);
         let mut s = String::new();
+        // volume: far more than 2^14 functions and characters in one stream (rare)
+        let volume = r.chance(1, 4000);
+        let volume_target = if volume { 17_000 + r.usize_below(20_000) } else { 0 };
+        if volume {
+            n = u64::MAX;
+            st.bump("volume_streams");
+        }
+        let mut count = 0usize;
         for _ in 0..n {
-            let tok = if r.chance(1, 5) { gen_token(r, 10, 5, &Profile::chaos()).1 } else { c03_token(r) };
+            if volume && count > volume_target {
+                break;
+            }
+            if !volume && r.chance(1, 300) {
+                // a control string far longer than any buffer size one might think of (4096, 8192, 16384)
+                let intro = *r.pick(&["\x1b]", "\u{9d}", "\x1bP", "\u{90}", "\x1b_", "\u{9f}", "\x1bX", "\x1b^", "\x1bP1;2|", "\x1b]52;c;"]);
+                let len = *r.pick(&[4_090usize, 4_097, 5_000, 8_193, 16_385, 20_000]) + r.usize_below(8);
+                let filler = *r.pick(&["a", "QUJD", "x y", "\u{e9}", "\u{65e5}\u{672c}", "0;", "\u{7f}a"]);
+                let body: String = filler.chars().cycle().take(len).collect();
+                let term = *r.pick(&["\x07", "\x1b\\", "\u{9c}", "\x18", ""]);
+                s.push_str(intro);
+                s.push_str(&body);
+                s.push_str(term);
+                s.push_str(*r.pick(&["", "A", "\x1b[2;3H", "\x1b[1mB"]));
+                st.bump("long_control_strings");
+                continue;
+            }
+            let tok = if volume && r.chance(2, 3) {
+                // mostly printable text: every character is a function of its own, and losing one
+                // shifts everything after it
+                let len = 20 + r.usize_below(60);
+                (0..len).map(|_| (b'!' + r.below(90) as u8) as char).collect::<String>()
+            } else if r.chance(1, 5) {
+                gen_token(r, 10, 5, &Profile::chaos()).1
+            } else {
+                c03_token(r)
+            };
             if r.chance(1, 4) {
                 // truncation fault + resynchronisation: cut the token, follow it by a resync
                 // character (or nothing), then an intact token follows in the next round
@@ -316,6 +350,7 @@ impl Check for C03 {
                     continue;
                 }
             }
+            count += tok.chars().count();
             s.push_str(&tok);
         }
         let mut t = Trace::new("C03", Config { cols: 2 + r.usize_below(12), rows: 2 + r.usize_below(5), limit: None });
@@ -343,7 +378,7 @@ impl Check for C03 {
                 // end-to-end: a terminal fed the stream in arbitrary feed_str pieces must end up in
                 // the same visible state as one fed, function by function, the canonical rendering
                 // of what the reference parser dispatched
-                if n <= 600 {
+                if n <= 600 || (n >= 17_000 && n <= 60_000) {
                     let cfg = &t.config;
                     let e2e = catch_avt(|| {
                         let mut a = crate::obs::build(cfg.cols.max(2), cfg.rows.max(2), None);
@@ -363,6 +398,13 @@ impl Check for C03 {
                             if let Some(rf) = rp.feed(*ch) {
                                 b.feed_str(&crate::model::parser::render(&rf));
                             }
+                        }
+                        // ... and as one fed the whole stream in a single feed_str call
+                        let mut c = crate::obs::build(cfg.cols.max(2), cfg.rows.max(2), None);
+                        let whole: String = chars.iter().collect();
+                        c.feed_str(&whole);
+                        if let Some(d) = crate::obs::same_screen(&a, &c) {
+                            return Some(format!("(pieces vs one feed_str call of {} characters) {}", chars.len(), d));
                         }
                         crate::obs::same_screen(&a, &b)
                     });
@@ -385,12 +427,12 @@ impl Check for C03 {
     }
     fn meta(&self) -> Meta {
         Meta {
-            rule: "parser-level lock-step of avt::parser::Parser with the reference parser, comparing after every character the public state and the returned Function (structurally): (a) single-step table over all scalar values x 14 states x backgrounds (enumerated, see extra_phase), each step followed by a dispatching final byte and CAN + fresh CUP/SGR; ESC Fe vs C1 twins from every state; (b) sampled sequence streams: all finals 0x40-0x7E x prefixes ? ! < = > x 0-2 intermediates x parameter shapes (empty, ;, :, 33+ parameters, 7+ sub-parts, 65535/65536/10^10), ESC finals, SGR colour forms incl. truncated ones, C0/C1 inside sequences, control strings, chaos tokens; (d) end-to-end: a Vt fed the stream in irregular feed_str pieces vs a Vt fed the canonical rendering of each function the reference parser dispatched - same visible screen, cursor, cursor-key mode; (c) truncation faults followed by CAN / SUB / ESC / C1 / ST / BEL / nothing and then intact tokens (resynchronisation, stale-parameter leakage); non-trivial = stream of >= 2 characters; distinct = stream digests",
+            rule: "parser-level lock-step of avt::parser::Parser with the reference parser, comparing after every character the public state and the returned Function (structurally): (a) single-step table over all scalar values x 14 states x backgrounds (enumerated, see extra_phase), each step followed by a dispatching final byte and CAN + fresh CUP/SGR; ESC Fe vs C1 twins from every state; (b) sampled sequence streams: all finals 0x40-0x7E x prefixes ? ! < = > x 0-2 intermediates x parameter shapes (empty, ;, :, 33+ parameters, 7+ sub-parts, 65535/65536/10^10), ESC finals, SGR colour forms incl. truncated ones, C0/C1 inside sequences, control strings incl. payloads of 4090..20000 characters, chaos tokens, rare volume streams of 17000..37000+ characters; (d) end-to-end: a Vt fed the stream in irregular feed_str pieces vs a Vt fed the canonical rendering of each function the reference parser dispatched - and vs a Vt fed the whole stream in one feed_str call - same visible screen, cursor, cursor-key mode (streams <= 600 characters and volume streams); (c) truncation faults followed by CAN / SUB / ESC / C1 / ST / BEL / nothing and then intact tokens (resynchronisation, stale-parameter leakage); non-trivial = stream of >= 2 characters; distinct = stream digests",
             assumptions: vec!["the reference parser (table from Williams' diagram + the four stated deviations) is the trusted base", "colour components are truncated to 8 bits as avt does; values > 255 are outside the statement", "Charset is matched through its Debug name (type not nameable from outside)"],
             real: vec!["avt::parser::Parser", "avt::Vt (end-to-end twin)"],
             simulated: vec!["App (sequence producer)", "Pipe (truncation faults, resynchronisation characters)"],
             model: vec!["RefParser"],
-            probes: vec!["truncated_tokens", "functions_compared", "table_single_steps", "esc_fe_pairs", "end_to_end_compared"],
+            probes: vec!["truncated_tokens", "functions_compared", "table_single_steps", "esc_fe_pairs", "end_to_end_compared", "long_control_strings", "volume_streams"],
             fault_kinds: vec!["truncated_tokens"],
         }
     }
